@@ -127,6 +127,13 @@ def run(ctx):
     check_dispatch(ctx)
     check_constant(ctx)
     check_weaver(ctx, wm)
+    from .common import dt_function, dt_weaver, DT_RULE
+    ctx.rule('C13.5', DT_RULE)
+    n_ = 0
+    for meth in ('linear', 'constant', 'cubic', 'spline'):
+        n_ += dt_function(ctx, 'C13.5', PROC + 'interpolate', {'x': 'x', 'y': 'x', 'new_x': 'new'}, consts={'method': Const(meth)}, what=f"interpolate[{meth}]")
+    n_ += dt_weaver(ctx, 'C13.5', wm, ['interpolate'])
+    ctx.floor('C13.5', n_, 1, 'in-place stores with a known buffer element type in interpolate')
     from . import c10
     c10.check_scans(ctx, kinds=('lower',), fill_true_only=True)      # the 'constant' method is built on the lower-neighbour scan
     ctx.notes.append('NOT DECIDED: every numerical clause (exactness at the knots, reproduction of affine data, spline values): NumPy/SciPy contracts.')
